@@ -3,8 +3,12 @@ import FedjaxVerif.Model.Emnist
 import FedjaxVerif.Model.Cifar
 import FedjaxVerif.Model.Labels
 import FedjaxVerif.Model.Stackoverflow
+import FedjaxVerif.Model.Loss
 import Mathlib.Algebra.Order.Field.Basic
 import Mathlib.Tactic.Ring
+import Mathlib.Tactic.NormNum
+import Mathlib.Algebra.Order.Field.Rat
+import Mathlib.Data.List.Perm.Basic
 import Mathlib.Tactic.Linarith
 import Mathlib.Tactic.FieldSimp
 import Mathlib.Analysis.Real.Sqrt
@@ -26,7 +30,10 @@ Theorems about the models of
   (`Model/Labels.lean`);
 * `fedjax/datasets/stackoverflow.py: DefaultWordTokenizer` (`Model/Stackoverflow.lean`) — layout,
   shift, truncation at the preprocessor's own `max_length`, label range; word splitting and the
-  vocabulary look-up are externals (the sentence enters as its look-up results).
+  vocabulary look-up are externals (the sentence enters as its look-up results);
+* the reduction of per-token losses in the language models' `train_loss` (`Model/Loss.lean`):
+  PAD positions never contribute, all-PAD rows give 0, rows are independent; the per-token cross
+  entropies are an external.
 
 Not modelled (monitored by the harness only): row independence of the haiku networks.
 -/
@@ -513,13 +520,13 @@ theorem C20_standardise (xs : List ℝ) (hne : xs ≠ []) :
 /-! ## Label conventions -/
 
 /-- what the driver's Boolean says, as a proposition: the model's output width is the dataset's
-vocabulary size and every metric masks the dataset's PAD, masks nothing but PAD/EOS as a target,
-masks only special labels as a prediction (over a mask of vocabulary width), and uses the
+vocabulary size and every metric masks the dataset's PAD, masks only special labels (never a
+vocabulary label) as a target, masks only special labels as a prediction (over a mask of vocabulary width), and uses the
 dataset's OOV set and EOS id. -/
 theorem C20_labels_agree (d : DatasetIds) (m : ModelIds) :
     labelsAgree d m = true ↔
       m.width = d.vocab ∧ ∀ k ∈ m.metrics,
-        d.pad ∈ k.masked ∧ (∀ v ∈ k.masked, v = d.pad ∨ v = d.eos) ∧
+        d.pad ∈ k.masked ∧ (∀ v ∈ k.masked, v = d.pad ∨ v = d.bos ∨ v = d.eos ∨ v ∈ d.oov) ∧
         (∀ ws, k.logitsMask = some ws → ws.1 = d.vocab ∧
             ∀ v ∈ ws.2, v = d.pad ∨ v = d.bos ∨ v = d.eos ∨ v ∈ d.oov) ∧
         (∀ o, k.oov = some o → (∀ v, v ∈ o ↔ v ∈ d.oov)) ∧
@@ -535,7 +542,7 @@ theorem C20_labels_agree (d : DatasetIds) (m : ModelIds) :
   cases lm with
   | none =>
     cases oov <;> cases eos <;>
-      simp [metricAgrees, hset, and_assoc]
+      simp [metricAgrees, isSpecial, hset, and_assoc, or_assoc]
   | some ws =>
     obtain ⟨w, s⟩ := ws
     cases oov <;> cases eos <;>
@@ -631,6 +638,93 @@ theorem C20_so_range (nv L : Nat) (ws : List (Option Nat)) (hws : ∀ i, some i 
          hd _ (fun v hv => hids v (List.mem_of_mem_tail hv))⟩
 
 
+/-! ## Train-loss reduction of the language models (per-token losses are an external) -/
+
+/-- PAD positions never contribute: two per-token loss rows that agree at every non-PAD target
+position give the same masked losses (whatever the values at PAD positions are). -/
+theorem loss_masked_congr (pad : Nat) (targets : List Nat) (ce ce' : List Rat)
+    (hlen : ce.length = ce'.length)
+    (h : ∀ i : Nat, targets[i]? ≠ some pad → ce[i]? = ce'[i]?) :
+    Loss.masked pad targets ce = Loss.masked pad targets ce' := by
+  induction targets generalizing ce ce' with
+  | nil => simp [Loss.masked]
+  | cons t ts ih =>
+    cases ce with
+    | nil => cases ce' with
+      | nil => rfl
+      | cons _ _ => simp at hlen
+    | cons c cs => cases ce' with
+      | nil => simp at hlen
+      | cons c' cs' =>
+        simp only [Loss.masked, List.zipWith_cons_cons]
+        have ht := ih cs cs' (by simpa using hlen) (fun i hi => by simpa using h (i + 1) (by simpa using hi))
+        simp only [Loss.masked] at ht
+        rw [ht]
+        by_cases hp : t = pad
+        · simp [hp]
+        · have := h 0 (by simpa using hp)
+          simp at this
+          simp [hp, this]
+
+theorem C20_loss_pad_invariant (pad : Nat) (el : Option Rat) (targets : List Nat) (ce ce' : List Rat)
+    (hlen : ce.length = ce'.length)
+    (h : ∀ i : Nat, targets[i]? ≠ some pad → ce[i]? = ce'[i]?) :
+    Loss.soLoss pad el targets ce = Loss.soLoss pad el targets ce' ∧
+    Loss.shkLoss pad targets ce = Loss.shkLoss pad targets ce' := by
+  have hm := loss_masked_congr pad targets ce ce' hlen h
+  constructor
+  · cases el <;> simp [Loss.soLoss, Loss.maskedSum, hm]
+  · simp [Loss.shkLoss, Loss.maskedSum, hm]
+
+/-- an all-PAD row (a batch-padding row, or an empty sentence row) has loss 0 -/
+theorem C20_loss_all_pad (pad : Nat) (el : Option Rat) (targets : List Nat) (ce : List Rat)
+    (h : ∀ t ∈ targets, t = pad) :
+    Loss.soLoss pad el targets ce = 0 ∧ Loss.shkLoss pad targets ce = 0 := by
+  have hm : Loss.maskedSum pad targets ce = 0 := by
+    unfold Loss.maskedSum Loss.masked
+    induction targets generalizing ce with
+    | nil => simp
+    | cons t ts ih =>
+      cases ce with
+      | nil => simp
+      | cons c cs =>
+        have ht : t = pad := h t (by simp)
+        simp [List.zipWith_cons_cons, ht, ih cs (fun t' ht' => h t' (by simp [ht']))]
+  constructor
+  · cases el <;> simp [Loss.soLoss, hm]
+  · simp [Loss.shkLoss, hm]
+
+/-- the loss is the PAD-masked sum over the non-PAD positions only: appending PAD positions
+(a longer `max_length`) does not change the StackOverflow loss -/
+theorem C20_loss_padding_irrelevant (pad : Nat) (el : Option Rat) (targets : List Nat) (ce : List Rat)
+    (hlen : ce.length = targets.length) (k : Nat) (junk : List Rat) (hj : junk.length = k) :
+    Loss.soLoss pad el (targets ++ List.replicate k pad) (ce ++ junk) = Loss.soLoss pad el targets ce := by
+  have hm : Loss.maskedSum pad (targets ++ List.replicate k pad) (ce ++ junk)
+      = Loss.maskedSum pad targets ce := by
+    unfold Loss.maskedSum Loss.masked
+    rw [List.zipWith_append (by omega)]
+    have hz : (List.zipWith (fun t c => if t = pad then (0 : Rat) else c) (List.replicate k pad) junk).sum = 0 := by
+      subst hj
+      induction junk with
+      | nil => simp
+      | cons j js ih => simp [List.replicate_succ, List.zipWith_cons_cons, ih]
+    simp [hz]
+  cases el <;> simp [Loss.soLoss, hm]
+
+/-- row independence: the loss of row `i` of a batch is the loss of that row alone, so replacing
+the other rows or permuting the batch cannot change it -/
+theorem C20_loss_row_independent (f : List Nat → List Rat → Rat) (rows : List (List Nat × List Rat)) :
+    (∀ i : Nat, (Loss.batchLoss f rows)[i]? = (rows[i]?).map (fun r : List Nat × List Rat => f r.1 r.2)) ∧
+    (∀ rows', rows.Perm rows' → (Loss.batchLoss f rows).Perm (Loss.batchLoss f rows')) := by
+  constructor
+  · intro i; simp [Loss.batchLoss]
+  · intro rows' hp; exact hp.map _
+
+/-- the expected-length variant is the unscaled loss times the constant `1 / expected_length` -/
+theorem C20_loss_scale (pad : Nat) (e : Rat) (targets : List Nat) (ce : List Rat) :
+    Loss.soLoss pad (some e) targets ce = Loss.soLoss pad none targets ce * (1 / e) := rfl
+
+
 /-! ## Non-vacuity: concrete instances meeting the hypotheses -/
 
 /-- a table with values in `[3, 90)` like the real one -/
@@ -708,5 +802,18 @@ example : Stackoverflow.tokenize 3 6 [some 0] = ([1, 3, 0, 0, 0, 0], [3, 2, 0, 0
 example := C20_so_shift 3 4 [some 0, none, some 2] 2 (by decide) (by decide)
 example := (C20_so_truncation 3 2 [some 0, none, some 2]).2 (by decide)
 example := C20_so_range 3 4 [some 0, none, some 2] (by simp)
+
+-- train-loss reduction
+example : Loss.soLoss 0 none [3, 2, 0] [1/2, 1/4, 7] = 3/4 := by
+  norm_num [Loss.soLoss, Loss.maskedSum, Loss.masked]
+example : Loss.soLoss 0 (some (133/10)) [3, 2, 0] [1/2, 1/4, 7] = 3/4 * (10/133) := by
+  norm_num [Loss.soLoss, Loss.maskedSum, Loss.masked]
+example : Loss.shkLoss 0 [3, 2, 0, 0] [1/2, 1/4, 7, 9] = 3/16 := by
+  norm_num [Loss.shkLoss, Loss.maskedSum, Loss.masked]
+example := C20_loss_pad_invariant 0 (some (133/10)) [3, 2, 0] [1/2, 1/4, 7] [1/2, 1/4, -100] rfl
+  (by intro i; match i with | 0 => simp | 1 => simp | 2 => simp | (n+3) => simp)
+example := C20_loss_all_pad 0 (some 2) [0, 0, 0] [5, 6, 7] (by simp)
+example := C20_loss_padding_irrelevant 0 none [3, 2] [1/2, 1/4] rfl 2 [9, 9] rfl
+example := (C20_loss_row_independent (Loss.soLoss 0 none) [([3, 2, 0], [1/2, 1/4, 7]), ([0, 0, 0], [1, 1, 1])]).1 1
 
 end FedjaxVerif.C20
